@@ -156,6 +156,27 @@ def check(ctx, rep):
     rep.check(fb.d["unsafe_code_lint"] == "Forbid", "no-cache", "crate", "forbid-unsafe", "#![forbid(unsafe_code)] in force", "unsafe_code lint level is %s" % fb.d["unsafe_code_lint"])
 
 
+def _is_die(v):
+    """v is the uniform distribution over the digits 0..=9, in any of rand's spellings:
+    Uniform::from(0..=9), Uniform::new_inclusive(0, 9), Uniform::from(0..10), Uniform::new(0, 10)
+    (rand builds all four through new_inclusive(low, high_inclusive))"""
+    v = strip(v)
+    if util.is_call(v, suffix="::from") and "Uniform" in v[1] and len(v[2]) == 1:
+        r = strip(v[2][0])
+        if util.is_call(r, "std::ops::RangeInclusive::<Idx>::new"):
+            return tuple(util.numnorm(x)[:2] for x in r[2]) == (("int", 0), ("int", 9))
+        if r[0] == "agg" and r[2] == "std::ops::RangeInclusive":
+            return tuple(util.numnorm(x)[:2] for x in r[4][:2]) == (("int", 0), ("int", 9))
+        if r[0] == "agg" and r[2] == "std::ops::Range":
+            return tuple(util.numnorm(x)[:2] for x in r[4][:2]) == (("int", 0), ("int", 10))
+        return False
+    if util.is_call(v, "rand::distributions::Uniform::<X>::new_inclusive") and len(v[2]) == 2:
+        return tuple(util.numnorm(x)[:2] for x in v[2]) == (("int", 0), ("int", 9))
+    if util.is_call(v, "rand::distributions::Uniform::<X>::new") and len(v[2]) == 2:
+        return tuple(util.numnorm(x)[:2] for x in v[2]) == (("int", 0), ("int", 10))
+    return False
+
+
 def matrix_digits(ctx, rep):
     NEW = "matrix_card::MatrixCard::new"
     nse = ctx.wrap.run(NEW)
@@ -184,7 +205,7 @@ def matrix_digits(ctx, rep):
             return [x]
         fs_ = factors(n)
         return sorted(map(str, fs_)) == sorted(map(str, [("sym", "a"), ("sym", "b"), ("sym", "c")]))
-    die_is = lambda v: util.is_call(v, suffix="::from") and util.is_call(v[2][0], "std::ops::RangeInclusive::<Idx>::new") and tuple(x[:2] for x in v[2][0][2]) == (("int", 0), ("int", 9))
+    die_is = _is_die
     if data is not None and util.is_call(data, "std::iter::Iterator::collect"):
         # Uniform::from(0..=9).sample_iter(thread_rng()).take(size).collect(): one draw per element
         tk = strip(data[2][0])
@@ -218,7 +239,13 @@ def matrix_digits(ctx, rep):
     why = "no whole-slice loop found"
     if len(loops) == 1:
         lp = loops[0]
-        if strip(lp["init"] or ("x",)) == ("param", 1) and "IterMut" in (lp["resolved"] or ""):
+        whole = strip(lp["init"] or ("x",)) == ("param", 1)
+        ini = strip(lp["init"] or ("x",))
+        if util.is_call(ini, "core::slice::<impl [T]>::iter_mut"):
+            # `for b in buf.iter_mut()`: the explicit spelling of `for b in buf`
+            la = (se.term_info.get(ini[3][1], {}).get("locargs") or (("?",),))[0]
+            whole = la == ("ref", ("deref", ("param", 1)), True)
+        if whole and "IterMut" in (lp["resolved"] or ""):
             # the only store in the loop body writes the element with sample(Uniform::from(0..=9), &mut thread_rng())
             writes = [(k, v) for k, v in se.assigns.items() if v[0][0] == "deref" and strip(v[0][1]) == strip(lp["elem"])]
             if len(writes) == 1:
@@ -227,7 +254,7 @@ def matrix_digits(ctx, rep):
                 if util.is_call(val, "<rand::distributions::Uniform<X> as rand::distributions::Distribution<X>>::sample"):
                     die = strip(val[2][0])
                     rng_ok, rwhy = util._rng_origin_ok(ctx, val, 1)
-                    die_ok = util.is_call(die, suffix="::from") and util.is_call(die[2][0], "std::ops::RangeInclusive::<Idx>::new") and tuple(x[:2] for x in die[2][0][2]) == (("int", 0), ("int", 9))
+                    die_ok = _is_die(die)
                     on_every_iter = cfg.must_pass_block(body, bi, lp["next_bb"]) or all(cfg.dominates(cfg.dominators(body), bi, t) for (t, h) in cfg.back_edges(body))
                     good = rng_ok and die_ok and on_every_iter
                     why = "every element := Uniform(0..=9).sample(thread_rng)" if good else "rng: %s; die 0..=9: %s; on every iteration: %s" % (rwhy, die_ok, on_every_iter)
@@ -242,7 +269,7 @@ def matrix_digits(ctx, rep):
             cl = fw[0]["locargs"][1]
             if cl[0] == "agg" and cl[1] == "closure" and len(cl[4]) == 2 and all(c[0] == "ref" and c[1][0] == "local" for c in cl[4]):
                 vals = [strip(util.value_before_terminator(se, fw[0]["site"][1], c[1])) for c in cl[4]]
-                die_i = [k for k, v in enumerate(vals) if util.is_call(v, suffix="::from") and util.is_call(v[2][0], "std::ops::RangeInclusive::<Idx>::new") and tuple(x[:2] for x in v[2][0][2]) == (("int", 0), ("int", 9))]
+                die_i = [k for k, v in enumerate(vals) if _is_die(v)]
                 rng_i = [k for k, v in enumerate(vals) if util.is_call(v, "rand::thread_rng")]
                 cse = ctx.flat.run(cl[2])
                 if len(die_i) == 1 and len(rng_i) == 1 and cl[4][rng_i[0]][2] and cse is not None and not cfg.back_edges(cse.body):
